@@ -5,6 +5,10 @@ import json, subprocess
 BASELINE = json.load(open('/root/.vp/BASELINE.json'))['cmd']
 
 CHECKS = {
+ "C07": dict(level="exploration", design="DESIGN.md §4 C07",
+   text="Every expression tree of depth <= 2 over the full operator set, every statement form in every body position to nesting 2 (dangling-else shapes included) and, in the thorough tier, depth-3 trees over one operator per precedence level are written as text by the documented rules in four parenthesis/brace styles and every single-site layout deviation; the real parser must return exactly the tree each text was written from.",
+   note="Trusts the harness printer as the statement of the documented grammar; deeper trees and multi-site layout combinations are not covered.",
+   technique="bounded exhaustive enumeration of syntax trees x layouts with a print/parse round-trip oracle"),
  "C06": dict(level="exploration", design="DESIGN.md §4 C06",
    text="Every string over a 16-symbol alphabet up to length 5/6, every token sequence over a 27-token alphabet up to length 4/5 and the scaling families (literals of 1..400 digits, bracket nesting to 10000, a program truncated at every position and continued by unterminated strings, comments, escapes and invalid bytes) are parsed by the real front end under lexer+parser fuel; error spans, the error display and the absence of any execution on error are checked on every rejected input, also through the built binary.",
    note="Fuel (loop iterations of the lexer plus TLexer.Next/Snapshot calls, 2000 per byte against a measured maximum of about 50) stands in for 'finite time'; characters outside the alphabet and longer inputs are not covered.",
